@@ -24,8 +24,10 @@ func payloadPkg(rel string) bool {
 }
 
 func checkC07(p *Prog, r *Report) {
-	r.Explain("Byte order enters the Exif decoders in exactly one way — a utils.ByteOrder value taken from the payload's TIFF header — and the rules decide that nothing else can make a result depend on it. BO-SRC: the payload packages (exif2 and its sub-packages, tiff) never name encoding/binary's byte orders; every call of a utils.ByteOrder method in the library has a receiver that flows from a ByteOrder field (Tag, Ifd, ExifHeader), a BinaryOrder result or a parameter — never a constant; every NewTag/NewIFD passes such an order. BO-BRANCH: outside meta/utils no utils.ByteOrder value is compared with BigEndian or LittleEndian (only the validity test against UnknownEndian is allowed), so no code path is chosen by the order. BO-WHOLE: the result of an order-aware read (Uint16/32/64) and the raw offset slot Tag.ValueOffset are never shifted or masked in the payload packages — splitting a value by hand is only right for one order. BO-PAIR: where Tag.EmbeddedValue re-serialises the offset slot into the scratch buffer, every order-aware read of that buffer in the same function uses the same tag's order. BO-NEST: where the payload decoder parses a nested TIFF header (utils.BinaryOrder on a window of a value, as in the Nikon maker note), every directory read under the `order != UnknownEndian` test is a NewIFD built with exactly that order — not with the order of the enclosing block. BO-SYM: in meta/utils each ByteOrder method calls the same-named method of binary.BigEndian exactly when the receiver is BigEndian and binary.LittleEndian otherwise, and BinaryOrder maps \"MM\\0*\"/\"II*\\0\" to BigEndian/LittleEndian. Equality of decoded values across the two orders is then a consequence; it is not computed.")
+	r.Explain("Byte order enters the Exif decoders in exactly one way — a utils.ByteOrder value taken from the payload's TIFF header — and the rules decide that nothing else can make a result depend on it. BO-SRC: the payload packages (exif2 and its sub-packages, tiff) never name encoding/binary's byte orders; every call of a utils.ByteOrder method in the library has a receiver that flows from a ByteOrder field (Tag, Ifd, ExifHeader), a BinaryOrder result or a parameter — never a constant; every NewTag/NewIFD passes such an order. BO-BRANCH: outside meta/utils no utils.ByteOrder value is compared with BigEndian or LittleEndian (only the validity test against UnknownEndian is allowed), so no code path is chosen by the order. BO-WHOLE: the result of an order-aware read (Uint16/32/64) and the raw offset slot Tag.ValueOffset are never shifted or masked in the payload packages — splitting a value by hand is only right for one order. BO-PAIR: where Tag.EmbeddedValue re-serialises the offset slot into the scratch buffer, every order-aware read of that buffer in the same function uses the same tag's order. BO-NEST: where the payload decoder parses a nested TIFF header (utils.BinaryOrder on a window of a value, as in the Nikon maker note), every directory read under the `order != UnknownEndian` test is a NewIFD built with exactly that order — not with the order of the enclosing block. HDRFLOW (shared with C06): every ExifHeader passed on or returned is constructed for the payload at hand on every flow path, so the order a directory is decoded with is the one its own TIFF header states, not one remembered from another block. BO-SYM: in meta/utils each ByteOrder method calls the same-named method of binary.BigEndian exactly when the receiver is BigEndian and binary.LittleEndian otherwise, and BinaryOrder maps \"MM\\0*\"/\"II*\\0\" to BigEndian/LittleEndian. Equality of decoded values across the two orders is then a consequence; it is not computed.")
 	r.Trusted("encoding/binary's two byte orders", "TIFF 6.0: II = little-endian, MM = big-endian")
+	ruleHdrFlow(p, r)
+	r.Floor("HDRFLOW", 8)
 	nSrc, nCalls := 0, 0
 	decomp := decomposingParams(p)
 	for _, f := range p.AllLibFns() {
